@@ -322,6 +322,22 @@ def _diagnose(c, r, bi):
     return "number of rows (%d) / pair multiplicities do not match 2 x the capped candidate list" % len(rows)
 
 
+def _mset_diff(c, r, model_ix):
+    from collections import Counter
+    cols = c["cols"]
+
+    def key(a, b):
+        return tuple(sorted((a, b)))
+    impl = Counter(key(a, b) for a, b in r["cands"])
+    model = Counter(key(cols[i] if i < len(cols) else "?", cols[j] if j < len(cols) else "?") for i, j in model_ix)
+    for k in sorted(set(impl) | set(model)):
+        if impl.get(k, 0) != model.get(k, 0):
+            return ("the pair {%r, %r} is listed %d time(s) by get_combinations_from_columns but %d time(s) by the model "
+                    "(hence evaluated a different number of times per batch; the set of pairs is the requested one)"
+                    % (k[0], k[1], impl.get(k, 0), model.get(k, 0)))
+    return "candidate multiset differs from the model"
+
+
 def evaluate(cases, tag="C06"):
     """-> list of verdict dicts: {ok, clause, impl, model, info_list_differs, info_sel_differs}"""
     res = vlib.run_impl("impl_c06.py", {"cases": cases})["results"]
@@ -354,7 +370,7 @@ def evaluate(cases, tag="C06"):
                           impl=dict(ncands=obs[0], caps=obs[1], nrows=obs[2]), model=dict(ncands=ncands, cap=cap2, nrows=mult * nsel),
                           list_differs=obs[0] != ncands, sel_differs=False, ncands=ncands, res=None)
             continue
-        chk, comp, list_eq, sel_same, (ncm, nsel, pre) = v
+        chk, comp, list_eq, (mset_eq, model_ix), sel_same, (ncm, nsel, pre) = v
         if comp is None:
             cands_ok, cap_ok, rows_ok = True, True, [True] * len(r["batches"])
         else:
@@ -373,7 +389,14 @@ def evaluate(cases, tag="C06"):
             clause = "batch %d: %s" % (bi, _diagnose(c, r, bi))
         elif not chk:
             clause = "C06_check rejects the observation"
-        out[i] = dict(ok=good, clause=clause, obligation="C06_check (cands_okb / rows_okb) on the implementation's candidate list and rows",
+        elif not mset_eq:
+            good = False
+            clause = _mset_diff(c, r, model_ix)
+        obligation = "C06_check (cands_okb / rows_okb) on the implementation's candidate list and rows"
+        if chk and not mset_eq:
+            obligation = ("correspondence:candidate list = transcription as a multiset of unordered pairs "
+                          "(C06_target_only_once / C06_pairwise_multiplicity are about the transcription)")
+        out[i] = dict(ok=good, clause=clause, obligation=obligation,
                       impl=dict(cands=r["cands"], cap_after=[r["cap_after_cands"]] + [b["cap_after"] for b in r["batches"]],
                                 rows=[b["rows"] for b in r["batches"]]) if not good else None,
                       model=dict(n_candidates=ncm, rows_expected_per_batch=(1 if c["heuristic"] == "Constant" else 2) * nsel),
@@ -381,7 +404,7 @@ def evaluate(cases, tag="C06"):
     return out
 
 
-def shrink(case, rounds=5):
+def shrink(case, rounds=8):
     """Greedy: drop columns / batches / rows while the checker still rejects."""
     cur = dict(case)
     for _ in range(rounds):
@@ -389,10 +412,16 @@ def shrink(case, rounds=5):
         others = [x for x in cur["cols"] if x != cur["label"]]
         for x in others:
             variants.append(dict(cur, cols=[y for y in cur["cols"] if y != x]))
-        h = len(others) // 2
-        if h >= 2:
-            for drop in (set(others[:h]), set(others[h:])):
-                variants.append(dict(cur, cols=[y for y in cur["cols"] if y not in drop]))
+        for parts in (2, 4):
+            h = len(others) // parts
+            if h >= 2:
+                for k in range(parts):
+                    keep = set(others[k * h:(k + 1) * h])     # keep one part, and (second variant) drop one part
+                    variants.append(dict(cur, cols=[y for y in cur["cols"] if y == cur["label"] or y in keep]))
+                    variants.append(dict(cur, cols=[y for y in cur["cols"] if y not in keep]))
+        if cur["cap"] > 0:
+            variants.append(dict(cur, cap=cur["cap"] // 2))
+            variants.append(dict(cur, cap=cur["cap"] - 1))
         if cur["batches"] > 1:
             variants.append(dict(cur, batches=1))
         if cur["nrows"] > 4:
@@ -406,7 +435,7 @@ def shrink(case, rounds=5):
         bad = [v for v, o in zip(variants, vs) if o is not None and not o["ok"] and o["obligation"] != "impl-raises"]
         if not bad:
             break
-        cur = min(bad, key=lambda v: (len(v["cols"]), v["batches"], v["nrows"]))
+        cur = min(bad, key=lambda v: (len(v["cols"]), v["batches"], v["cap"], v["nrows"]))
     return cur
 
 
@@ -488,7 +517,7 @@ def check(run, replay):
     run.oblige("correspondence:C06_check on implementation candidate lists and rows", nbad == 0,
                "" if nbad == 0 else "%d of %d cases rejected" % (nbad, len(cases)))
     run.cov["cases_checked_in_coq"] = len(cases)
-    run.cov["candidate_list_differs_from_transcription_but_set_level_ok"] = nlist - sum(
+    run.cov["candidate_list_order_differs_from_transcription_same_multiset"] = nlist - sum(
         1 for o in verdicts if o["list_differs"] and not o["ok"])
     run.cov["selection_differs_from_stable_sort_transcription"] = nsel
     run.cov["input_distribution"] = hist
